@@ -436,40 +436,43 @@ func (g *c36gen) mutate(p string, sch int) string {
 }
 
 // pattern from the modelled subset (literal bytes, \ + punctuation, ., x+, non-nested groups)
-func (g *c36gen) pattern() string {
-	var b strings.Builder
+// together with a string it matches
+func (g *c36gen) pattern() (string, string) {
+	var b, m strings.Builder
 	item := func() {
+		var one func() string
 		switch k := g.r.Intn(12); {
 		case k < 6:
-			b.WriteString(g.word("ab/_", 1, 1))
-		case k < 8:
+			c := g.word("ab/_", 1, 1)
+			b.WriteString(c)
+			one = func() string { return c }
+		case k < 9:
 			b.WriteByte('.')
-		case k < 10:
-			b.WriteString("\\" + g.word("\\.+*?()|[]{}^$", 1, 1))
+			one = func() string { return g.word("ab/_.+(x", 1, 1) }
 		default:
-			b.WriteString(g.word("ab/.", 1, 1))
+			c := g.word("\\.+*?()|[]{}^$", 1, 1)
+			b.WriteString("\\" + c)
+			one = func() string { return c }
 		}
+		n := 1
 		if g.r.Chance(30) {
 			b.WriteByte('+')
+			n = g.r.Range(1, 3)
+		}
+		for i := 0; i < n; i++ {
+			m.WriteString(one())
 		}
 	}
 	n := g.r.Range(1, 6)
 	for i := 0; i < n; i++ {
 		if g.r.Chance(25) {
 			b.WriteByte('(')
-			m := g.r.Range(0, 3)
-			for j := 0; j < m; j++ {
+			k := g.r.Range(0, 3)
+			for j := 0; j < k; j++ {
 				item()
 			}
 			b.WriteByte(')')
-			// ")+" is outside the subset: separate by a literal
-			if g.r.Chance(50) {
-				b.WriteString(g.word("ab/", 1, 1))
-			} else if i == n-1 {
-				continue
-			} else {
-				b.WriteString(g.word("ab/", 1, 1))
-			}
+			// ")+" is outside the subset: a group is never followed by '+'
 		} else {
 			item()
 		}
@@ -488,7 +491,7 @@ func (g *c36gen) pattern() string {
 	case 4:
 		s = s + "(+)"
 	}
-	return strings.ReplaceAll(s, ")+", ")a+")
+	return s, m.String()
 }
 
 // roots whose bytes stay inside the subset when used unquoted in a pattern
@@ -619,7 +622,17 @@ func c36(ctx *hlib.Ctx) {
 					g.regex(regexp.QuoteMeta(base)+lit, in, "regexp-quoted-root")
 				}
 			} else {
-				g.regex(g.pattern(), g.word("ab/_.\n+(", 0, 12), "regexp-random")
+				pat, in := g.pattern()
+				switch k := g.r.Intn(10); {
+				case k < 3:
+				case k < 6:
+					in = g.word("ab/_.\n", 0, 3) + in + g.word("ab/_.\n", 0, 3)
+				case k < 8:
+					in = g.mutate(in, 2)
+				default:
+					in = g.word("ab/_.\n+(", 0, 12)
+				}
+				g.regex(pat, in, "regexp-random")
 			}
 		default:
 			g.lib("lib")
